@@ -22,6 +22,17 @@ def known(sig):
 
 
 def reductions(sig):
+    # a segment marker alone: the listed defect of the plain site reached under a segment override
+    ms = re.search(r' seg(=ds|=ss)?(?= |$)', sig)
+    if ms:
+        plain = sig[:ms.start()] + sig[ms.end():]
+        yield plain, 'no segment'
+        for s2, a in reductions(plain):
+            yield s2, a
+    mo = re.search(r' o16/a16(?= )', sig)          # C11 names the decoded operand/address size instead of the prefixes
+    if mo:
+        for alt in (' o16/a32', ' o32/a16', ' o32/a32'):
+            yield sig[:mo.start()] + alt + sig[mo.end():], alt.strip()
     m = re.search(r' pfx=(\S+)', sig)
     if not m:
         return
@@ -55,7 +66,7 @@ for f in sorted(glob.glob('/verif/replays/%s/*.json' % pid)):
         rest.append(r)
 print('%d derived, %d left for manual triage' % (len(derived), len(rest)))
 for r in rest:
-    print('  LEFT', r['signature'], '|', r['what'][:150])
+    print('  LEFT', r['signature'], '|', r['what'][:150], flush=False)
 if apply_:
     for r, s2, k in derived:
         expl = 'the listed defect "%s" reached through another prefix set (the extra prefix takes no part in the faulty path): %s' % (
